@@ -70,6 +70,10 @@ def gen_source(rng, hazardous=True) -> Src:
 
     def bc(did, depth):
         t = "/* " + comment_text(rng, hazardous) + " */"
+        others = [x for x in s.block_comments if x[0] != did and not x[2].startswith("/*-")]
+        if others and rng.random() < 0.25:
+            t = rng.choice(others)[2]          # the same block comment text again, in another dict / at another level
+            s.nontrivial = True
         if not s.block_comments and not s.own_header and depth > 0:
             s.first_block_nested = True
         s.block_comments.append((did, depth, t))
